@@ -152,17 +152,31 @@ func genGated(w *world, t *trace.W, r *rng.R, srv bool) {
 		[]string{"2.0.0", "4.0.0"}[r.Intn(2)]))
 	n := r.Range(2, 4)
 	for id := 1; id <= n; id++ {
-		w.run(t, fmt.Sprintf("put %d %s %s %d %s U 0 0", id, genAddrs[id-1], []string{"4.0.0", "4.0.1", "4.1.0"}[r.Intn(3)],
-			r.Intn(3), genLabels(r)))
+		// one version throughout: the cluster-version bump of PutStore/buryStore happens in a later lock section
+		// of its own, whose order relative to the second operation is not controlled
+		w.run(t, fmt.Sprintf("put %d %s 4.0.0 %d %s U 0 0", id, genAddrs[id-1], r.Intn(3), genLabels(r)))
 	}
 	cleaned := false
-	storeOp := func(id int) string {
+	// checkStores takes the lock once per store it buries: as the parked operation it is only used when at
+	// most one store can be buried, so that it has a single locked section like the other operations
+	buriable := func() int {
+		k := 0
+		for _, s := range w.rc.GetStores() {
+			if s.IsOffline() && w.rc.GetStoreRegionCount(s.GetID()) == 0 {
+				k++
+			}
+		}
+		return k
+	}
+	storeOp := func(id int, first bool) string {
 		switch r.Pick(22, 12, 18, 16, 8, 8, 8, 8) {
 		case 0:
+			if first && buriable() > 1 {
+				return fmt.Sprintf("up %d 0", id)
+			}
 			return "check 0"
 		case 1:
-			return fmt.Sprintf("put %d %s %s %d %s U 0 0", id, genAddrs[r.Intn(len(genAddrs))],
-				[]string{"4.0.0", "4.0.1", "4.1.0"}[r.Intn(3)], r.Intn(3), genLabels(r))
+			return fmt.Sprintf("put %d %s 4.0.0 %d %s U 0 0", id, genAddrs[r.Intn(len(genAddrs))], r.Intn(3), genLabels(r))
 		case 2:
 			return fmt.Sprintf("remove %d %d 0", id, r.Pick(3, 1))
 		case 3:
@@ -178,7 +192,7 @@ func genGated(w *world, t *trace.W, r *rng.R, srv bool) {
 			return fmt.Sprintf("bury %d 0", id)
 		}
 		if srv {
-			return fmt.Sprintf("gput %d %s 4.0.1 %d %s U 0 0", id, genAddrs[r.Intn(len(genAddrs))], r.Intn(3), genLabels(r))
+			return fmt.Sprintf("gput %d %s 4.0.0 %d %s U 0 0", id, genAddrs[r.Intn(len(genAddrs))], r.Intn(3), genLabels(r))
 		}
 		cleaned = true
 		return "rmtomb 0"
@@ -198,16 +212,24 @@ func genGated(w *world, t *trace.W, r *rng.R, srv bool) {
 				w.run(t, fmt.Sprintf("region %d 7", r.Range(1, 2)))
 			}
 		}
-		op1 := storeOp(id)
+		op1 := storeOp(id, true)
 		id2 := id
 		if r.Bool(1, 4) {
 			id2 = r.Range(1, n)
 		}
-		op2 := storeOp(id2)
+		op2 := storeOp(id2, false)
 		if strings.HasPrefix(op2, "ghb") && cleaned {
 			op2 = fmt.Sprintf("up %d 0", id2)
 		}
-		if res := w.run(t, "park "+op1); res != "parked" {
+		parked := false
+		for try := 0; try < 4 && !parked; try++ {
+			// an operation that issues no store write (rejected, nothing to do) simply completes: try another
+			if try > 0 {
+				op1 = storeOp(id, true)
+			}
+			parked = w.run(t, "park "+op1) == "parked"
+		}
+		if !parked {
 			continue
 		}
 		w.run(t, op2)
